@@ -46,7 +46,7 @@ def run(cmd, env=None, cwd=None, timeout=None, check=True, capture=True):
 # --------------------------------------------------------------------------------------- MIR dumps
 MIR_KINDS = {
     # name: (packages/args, profile flags, extra rustflags, use shim workspace)
-    'shm': dict(args=['-p', 'clock-bound-shm', '--features', 'clock-bound-shm/writer', '-p', 'clock-bound-client'], release=False,
+    'shm': dict(args=['-p', 'clock-bound-shm', '--features', 'clock-bound-shm/writer', '-p', 'clock-bound-client', '-p', 'clock-bound-ffi'], release=False,
                 flags='-C debug-assertions=off -C overflow-checks=on', ws='repo'),
     'dlib': dict(args=['--lib'], release=False, flags='-C debug-assertions=off -C overflow-checks=on', ws='shim'),
     'dbin': dict(args=['-p', 'clock-bound-d', '--bin', 'clockbound'], release=True, flags='', ws='repo'),
